@@ -276,7 +276,11 @@ def hdl21_naming_encoder(obj: Any) -> Any:
         # Not supported as parameters
         raise RuntimeError(f"Invalid `hdl21.paramclass` field {obj}")
 
-    if isinstance(obj, (Module, ExternalModule, Generator)):
+    if isinstance(obj, ExternalModule):
+        # Qualified name, plus the `domain` which distinguishes same-named `ExternalModule`s on export
+        return f"{obj.domain}:{module_qualname(obj)}"
+
+    if isinstance(obj, (Module, Generator)):
         # Use qualified class names/paths
         return module_qualname(obj)
 
@@ -287,7 +291,7 @@ def hdl21_naming_encoder(obj: Any) -> Any:
 
     if isinstance(obj, ExternalModuleCall):
         # Mix the qualified class names/paths with the parameters
-        return module_qualname(obj.module) + _unique_name(obj.params)
+        return hdl21_naming_encoder(obj.module) + _unique_name(obj.params)
 
     # Dataclasses also require custom handling, as the default encoder deep-copies them,
     # often invoking methods not supported on several Hdl21 types.
